@@ -10,10 +10,13 @@ package codec
 
 import (
 	"encoding/json"
+	"errors"
+	"net/url"
 
 	"github.com/pentops/j5/gen/j5/ext/v1/ext_j5pb"
 	"github.com/pentops/j5/lib/j5reflect"
 	"github.com/pentops/j5/lib/j5schema"
+	"google.golang.org/grpc/codes"
 	"google.golang.org/protobuf/proto"
 	"google.golang.org/protobuf/reflect/protoreflect"
 	"google.golang.org/protobuf/types/descriptorpb"
@@ -921,4 +924,169 @@ func HarnessMessageDecode() {
 	}
 	vmSame(want, msg, "-decoded")
 	vmSame(msg, want, "-decoded-reverse")
+}
+
+// ---------- URL query decoding ----------
+
+func verifStatusError(code codes.Code, msg string) error { return errors.New(msg) }
+
+var qKeys = []string{"a", "n", "os", "b", "e", "o.a", "o.n", "o", "w.a", "w", "r", "rs", "m", "mo", "zz", "o.zz", "a.x", "r.x", ""}
+var qVals = []string{"x", "7", "", `{"n":7}`}
+
+// HarnessQueryDecode: Codec.decodeQuery (propertyAtPath, CreateField, scalar /
+// array-of-scalar / container values) on url.Values with up to K keys drawn
+// from dotted paths into every field kind (and unknown, empty and too-deep
+// paths), each with 0..2 values. No url.Values makes it panic; the verdict and
+// the decoded message do not depend on the order in which Go ranges over the
+// map; a single scalar, array or nested-scalar parameter is stored exactly and
+// the listed faults are rejected.
+func HarnessQueryDecode() {
+	u := verifMsgUniverse()
+	K := verifParam("K", 2)
+	k := ndIntRange("keys", 0, K)
+	q := url.Values{}
+	var firstKey string
+	var firstVals []string
+	jsonVals := 0
+	for i := 0; i < k; i++ {
+		key := ""
+		if i == 0 {
+			key = qKeys[ndChoice("key", len(qKeys))]
+		} else {
+			// second parameter: the ones that share a container or a property with others
+			key = []string{"o", "o.n", "o.a", "a", "w.a", "r"}[ndChoice("key2", 6)]
+		}
+		if _, dup := q[key]; dup {
+			verifAssume(false)
+		}
+		nv := 1
+		if k == 1 {
+			nv = ndIntRange("values", 0, 2)
+		}
+		vals := []string{}
+		for j := 0; j < nv; j++ {
+			v := qVals[ndChoice("value", len(qVals))]
+			if v == qVals[3] {
+				jsonVals++
+				// the token stream encoding/json would produce for this value
+				var toks []json.Token
+				refParseJSON([]byte(v), 0, &toks)
+				verifToks, verifTokPos = toks, 0
+			}
+			vals = append(vals, v)
+		}
+		if nv == 0 && ndBool("nilSlice") {
+			vals = nil
+		}
+		q[key] = vals
+		if i == 0 {
+			firstKey, firstVals = key, vals
+		}
+	}
+	verifAssume(jsonVals <= 1) // one token stream per run
+	c := &Codec{refl: j5reflect.New()}
+	m1 := j5schema.VerifNewDynMessage(u.Message("m.v1.Root"))
+	verifTermBudget(8000000)
+	err1 := c.decodeQuery(q, m1)
+	verifEndTermBudget()
+	// again, under another iteration order of the same map
+	verifTokPos = 0
+	m2 := j5schema.VerifNewDynMessage(u.Message("m.v1.Root"))
+	verifTermBudget(8000000)
+	err2 := c.decodeQuery(q, m2)
+	verifEndTermBudget()
+	verifAssert((err1 == nil) == (err2 == nil), "verdict-independent-of-map-order")
+	if err1 == nil && err2 == nil {
+		vmSame(m1, m2, "-map-order")
+		vmSame(m2, m1, "-map-order-reverse")
+	}
+	if k != 1 {
+		return
+	}
+	// one parameter: exact expectations
+	rd := u.Message("m.v1.Root")
+	want := j5schema.VerifNewDynMessage(rd)
+	fail, unspecified := false, false
+	if len(firstVals) == 0 {
+		fail = true // a parameter without any value carries nothing to store
+	}
+	one := func() (string, bool) {
+		if len(firstVals) != 1 {
+			fail = true
+			return "", false
+		}
+		return firstVals[0], true
+	}
+	switch firstKey {
+	case "a", "os":
+		if v, ok := one(); ok {
+			if v == "" && firstKey == "a" {
+				unspecified = true // empty value of an implicit-presence string
+			}
+			want.Set(rd.Fields().ByName(protoreflect.Name(firstKey)), protoreflect.ValueOfString(v))
+		}
+	case "n":
+		if v, ok := one(); ok {
+			if v == "7" {
+				want.Set(rd.Fields().ByName("n"), protoreflect.ValueOfInt32(7))
+			} else {
+				fail = true
+			}
+		}
+	case "o.a":
+		if v, ok := one(); ok {
+			in := j5schema.VerifNewDynMessage(u.Message("m.v1.Inner"))
+			in.Set(in.Descriptor().Fields().ByName("a"), protoreflect.ValueOfString(v))
+			want.Set(rd.Fields().ByName("o"), protoreflect.ValueOfMessage(in))
+		}
+	case "o.n":
+		if v, ok := one(); ok {
+			if v == "7" {
+				in := j5schema.VerifNewDynMessage(u.Message("m.v1.Inner"))
+				in.Set(in.Descriptor().Fields().ByName("n"), protoreflect.ValueOfInt32(7))
+				want.Set(rd.Fields().ByName("o"), protoreflect.ValueOfMessage(in))
+			} else {
+				fail = true
+			}
+		}
+	case "r":
+		l := want.Mutable(rd.Fields().ByName("r")).List()
+		for _, v := range firstVals {
+			if v != "7" {
+				fail = true
+			}
+			l.Append(protoreflect.ValueOfInt32(7))
+		}
+	case "rs":
+		l := want.Mutable(rd.Fields().ByName("rs")).List()
+		for _, v := range firstVals {
+			l.Append(protoreflect.ValueOfString(v))
+		}
+	case "o":
+		if v, ok := one(); ok {
+			if v == qVals[3] {
+				in := j5schema.VerifNewDynMessage(u.Message("m.v1.Inner"))
+				in.Set(in.Descriptor().Fields().ByName("n"), protoreflect.ValueOfInt32(7))
+				want.Set(rd.Fields().ByName("o"), protoreflect.ValueOfMessage(in))
+			} else {
+				fail = true
+			}
+		}
+	case "zz", "o.zz", "a.x", "r.x", "":
+		fail = true
+	default:
+		unspecified = true
+	}
+	if fail {
+		verifAssert(err1 != nil, "faulty-query-rejected")
+		return
+	}
+	if unspecified {
+		return
+	}
+	verifAssert(err1 == nil, "well-formed-query-accepted")
+	if err1 == nil {
+		vmSame(want, m1, "-query")
+		vmSame(m1, want, "-query-reverse")
+	}
 }
